@@ -252,6 +252,15 @@ var ifaceTypes = []reflect.Type{
 		Y *int `json:"y,omitempty"`
 	}{}), reflect.TypeOf([2]bool{}), reflect.TypeOf(stdjson.Number("")), reflect.TypeOf(NStr("")), reflect.TypeOf((*int)(nil)),
 	reflect.TypeOf([]interface{}(nil)), reflect.TypeOf(map[string]interface{}(nil)),
+	reflect.TypeOf(ValMJ{}), reflect.TypeOf(RoundMJ{}), reflect.TypeOf(&ValMJ{}), reflect.TypeOf([]ValMJ(nil)), reflect.TypeOf(map[string]RoundMJ(nil)),
+	reflect.TypeOf(struct {
+		N int
+		M ValMJ
+		T ValMT `json:"t"`
+	}{}), reflect.TypeOf(struct {
+		I interface{}
+		R *RoundMJ
+	}{}), reflect.TypeOf(ValMT{}), reflect.TypeOf(IntMJ(0)), reflect.TypeOf(map[KeyMT]int(nil)),
 }
 
 // ExtraIfaceTypes lets a check add dynamic types (e.g. marshaler leaves).
